@@ -1,5 +1,5 @@
 (* C19 - I/O failures.  Statements only. *)
-Require Import FL.Base.Bytes FL.Fs.Fs FL.Flw.Model FL.Flw.ModelFacts.
+Require Import FL.Base.Bytes FL.Fs.Fs FL.Names.FileSpec FL.Flw.Model FL.Flw.ModelFacts FL.Flw.Run FL.Flw.FaultFacts.
 
 (* with an exhausted fault oracle (and no kill) the primitives are their fault-free versions: a write appends,
    a rename renames - so once operations succeed again the model is the fault-free model of the other theorems *)
@@ -16,6 +16,34 @@ Proof.
   intros w i b rest Hb Hf. unfold p_write, tick. destruct b as [|x b]; [contradiction|]. rewrite Hf. reflexivity.
 Qed.
 
+(* History level, for a writer without rotation in direct mode: for EVERY fault sequence fl (one entry per
+   file-system call: the open that a record needs while no file is open, and the write of each non-empty record)
+   and EVERY list of records, every log call returns normally, the file holds exactly what the specification `sim`
+   computes, and exactly that many failures are reported on the error channel *)
+Theorem C19_faults_norotation :
+  forall c t0 off fl recs, plaincfg c ->
+    let w0 := set_faults (world0 t0 off) fl in
+    let x := fst (run {| s_flw := None; s_w := w0; s_tl := []; s_dead := false |} (OStart c :: List.map OWrite recs)) in
+    content_of (wfs (s_w x)) (the_name c) = fst (fst (sim false fl recs))
+    /\ werrs (s_w x) = repeat EWrite (snd (fst (sim false fl recs)))
+    /\ (forall o, In o (snd (run {| s_flw := None; s_w := w0; s_tl := []; s_dead := false |} (OStart c :: List.map OWrite recs))) ->
+          o = ObsRes 0%N false).
+Proof. exact faults_norotation. Qed.
+
+(* what `sim` says: only records during whose handling a failure was injected are missing (the file is the
+   concatenation of a subsequence of the records), and each missing record is counted as one reported failure *)
+Theorem C19_lost_only_failed : forall opened fl recs,
+  exists kept, Subseq kept recs /\ fst (fst (sim opened fl recs)) = concat kept
+               /\ length recs = (length kept + snd (fst (sim opened fl recs)))%nat.
+Proof. exact lost_only_failed. Qed.
+
+(* once no more failures are injected every further record is written and nothing is reported *)
+Theorem C19_recovery : forall opened recs, fst (fst (sim opened [] recs)) = concat recs /\ snd (fst (sim opened [] recs)) = 0%nat.
+Proof. exact recovery. Qed.
+
 Check C19_no_fault_no_failure. Check C19_failed_write_no_effect.
 Print Assumptions C19_no_fault_no_failure.
 Print Assumptions C19_failed_write_no_effect.
+Print Assumptions C19_faults_norotation.
+Print Assumptions C19_lost_only_failed.
+Print Assumptions C19_recovery.
